@@ -386,6 +386,13 @@ func allowedHas(allowed []string, o string) bool {
 // ---------------------------------------------------------------- case kinds
 func (w *worker) runSem(n int, c *Case, st *stats) {
 	q := spell(c.Q)
+	qshow := q // in reports: as a Go string literal when it is not plain ASCII
+	for i := 0; i < len(q); i++ {
+		if q[i] < ' ' || q[i] > '~' {
+			qshow = strconv.QuoteToASCII(q)
+			break
+		}
+	}
 	atomSet := map[[2]string]bool{}
 	for i := range c.Atoms {
 		c.Atoms[i][1] = unname(c.Atoms[i][1])
@@ -427,7 +434,7 @@ func (w *worker) runSem(n int, c *Case, st *stats) {
 		ast, outcome, msg := w.call(n, r.fn, r.mp, q, parseWith(r.fn, q, r.m))
 		if !allowedHas(c.Allowed, outcome) {
 			emit(map[string]any{"n": n, "what": "outcome", "fn": r.fn, "map": r.mp, "got": outcome + ": " + msg,
-				"exp": strings.Join(c.Allowed, "|"), "q": q})
+				"exp": strings.Join(c.Allowed, "|"), "q": qshow})
 			continue
 		}
 		if outcome != "ok" {
@@ -435,17 +442,17 @@ func (w *worker) runSem(n int, c *Case, st *stats) {
 		}
 		got, err := shape(ast)
 		if err != nil {
-			emit(map[string]any{"n": n, "what": "returned tree", "fn": r.fn, "map": r.mp, "got": err.Error(), "q": q})
+			emit(map[string]any{"n": n, "what": "returned tree", "fn": r.fn, "map": r.mp, "got": err.Error(), "q": qshow})
 			continue
 		}
 		if st := strangers(got, atomSet, nil); len(st) > 0 {
 			// a term that is none of the written words: the query depends on something the expression does not name
 			emit(map[string]any{"n": n, "what": "returned tree", "fn": r.fn, "map": r.mp,
-				"got": "leaf " + strings.Join(st, ", ") + " is not a word of the expression", "q": q, "tree": got})
+				"got": "leaf " + strings.Join(st, ", ") + " is not a word of the expression", "q": qshow, "tree": got})
 			continue
 		}
 		if tt := table(got, c.Atoms); !reflect.DeepEqual(tt, c.TT) {
-			emit(map[string]any{"n": n, "what": "truth table", "fn": r.fn, "map": r.mp, "got": tt, "exp": c.TT, "q": q,
+			emit(map[string]any{"n": n, "what": "truth table", "fn": r.fn, "map": r.mp, "got": tt, "exp": c.TT, "q": qshow,
 				"tree": got})
 			continue
 		}
@@ -453,7 +460,7 @@ func (w *worker) runSem(n int, c *Case, st *stats) {
 			atomic.AddInt64(&st.shapeEq, 1)
 		} else if atomic.AddInt64(&st.shapeDiff, 1) <= 3 {
 			// same meaning, other shape than the transcription in Parser.tla: not a violation of C12
-			emit(map[string]any{"n": n, "what": "shape drift", "fn": r.fn, "q": q, "got": got, "exp": c.AST})
+			emit(map[string]any{"n": n, "what": "shape drift", "fn": r.fn, "q": qshow, "got": got, "exp": c.AST})
 		}
 	}
 }
